@@ -73,6 +73,12 @@ def expected_distance(s, group):
         if m:
             return int(m.group(1))
         return None
+    if group in (3, 4):
+        order = codes().FIELD_SORT_ORDER
+        for n in (4, 3, 2):
+            if u[:n] in order:
+                return order.index(u[:n])
+        return None
     if group == 5:
         m = codes().PAT_RELAYS.match(s)
         if m.group(3) and m.group(3).isascii():
@@ -295,6 +301,16 @@ def sym_expected_distance(P, s, group):
         if m:
             v = _digits(S.cells_of(m.group(1)))
             return lambda d: d == v
+        return None
+    if group in (3, 4):
+        # a field code sorts at the position of its event in the conventional order, whatever weight or spelling follows
+        from pyvc.builtins_sym import sym_in
+        order = codes().FIELD_SORT_ORDER
+        du = s.upper()
+        for n in (4, 3, 2):
+            if len(du) >= n and sym_in(du[:n], order):
+                pos = [i for i, e in enumerate(order) if bool(du[:n] == e)][0]
+                return lambda d: d == pos
         return None
     if group == 5:
         leg = sym_leg(P, s)
